@@ -270,6 +270,26 @@ func (fr *Frame) lookupLocal(name string, at *ssa.BasicBlock, st *State) (SVal, 
 			return SVal{V: v, Ty: fv.Type()}, true
 		}
 	}
+	// a body local that is not (yet) defined on the paths reaching `at`: in a postcondition it stands for an
+	// arbitrary value of its type (the clause has to hold whatever it is), so that one `ensures` can speak about
+	// locals that only some returns define
+	if at != nil && fr.atInside {
+		for _, b := range fn.Blocks {
+			for _, in := range b.Instrs {
+				if x, ok := in.(*ssa.DebugRef); ok && !x.IsAddr {
+					if id, ok := x.Expr.(*ast.Ident); ok && id.Name == name {
+						if tv, isVar := x.Object().(*types.Var); isVar && !tv.IsField() {
+							if fr.fx.ctx.quant > 0 {
+								return SVal{}, false
+							}
+							c := fr.fx.ctx.Const("undef."+fn.Name()+"."+name, sortOf(x.X.Type()))
+							return SVal{V: Val{T: c}, Ty: x.X.Type()}, true
+						}
+					}
+				}
+			}
+		}
+	}
 	return SVal{}, false
 }
 
@@ -685,6 +705,9 @@ func (e *specEnv) call(n *ast.CallExpr) (SVal, error) {
 		if e.oldEnv != nil {
 			oe = e.oldEnv.child()
 			oe.hints = e.hints
+			if oe.at == nil {
+				oe.at = e.at // body locals are SSA values: visible under old() as at the point of evaluation
+			}
 			if oe.witFr == nil {
 				oe.witFr = e.witFr
 				if oe.witFr == nil {
